@@ -261,9 +261,13 @@ class QuantityPoint {
     Diff x_;
 };
 
+// Provide out-of-line definition for static member, for C++14 compatibility.
+template <typename UnitT, typename RepT>
+constexpr UnitT QuantityPoint<UnitT, RepT>::unit;
+
 template <typename Unit>
 struct QuantityPointMaker {
-    static constexpr auto unit = Unit{};
+    static constexpr Unit unit{};
 
     template <typename T>
     constexpr auto operator()(T value) const {
@@ -293,6 +297,10 @@ struct QuantityPointMaker {
         return QuantityPointMaker<decltype(unit / m)>{};
     }
 };
+
+// Provide out-of-line definition for static member, for C++14 compatibility.
+template <typename Unit>
+constexpr Unit QuantityPointMaker<Unit>::unit;
 
 template <typename U>
 struct AssociatedUnitForPoints<QuantityPointMaker<U>> : stdx::type_identity<U> {};
